@@ -565,7 +565,6 @@ impl Lab {
             let res: String = match t {
                 "insert" => {
                     self.n_ops += 1;
-                    mut_since = true;
                     match guarded(|| backend.insert(st["id"].as_u64().unwrap(), fam.input(st["v"].as_u64().unwrap()), meta_of(&st["m"]))) {
                         Ok(()) => "ok".into(),
                         Err(_) => "err".into(),
@@ -573,12 +572,10 @@ impl Lab {
                 }
                 "delete" => {
                     self.n_ops += 1;
-                    mut_since = true;
                     match guarded(|| backend.delete(st["id"].as_u64().unwrap())) { Ok(x) => x.to_string(), Err(_) => "err".into() }
                 }
                 "umeta" => {
                     self.n_ops += 1;
-                    mut_since = true;
                     match guarded(|| backend.update_metadata(st["id"].as_u64().unwrap(), meta_of(&st["m"]), st["merge"].as_bool().unwrap_or(false))) {
                         Ok(x) => x.to_string(),
                         Err(_) => "err".into(),
@@ -586,7 +583,6 @@ impl Lab {
                 }
                 "bdelete" => {
                     self.n_ops += 1;
-                    mut_since = true;
                     let ids: Vec<u64> = st["ids"].as_array().unwrap().iter().map(|x| x.as_u64().unwrap()).collect();
                     match guarded(|| backend.batch_delete(&ids)) { Ok(n) => n.to_string(), Err(_) => "err".into() }
                 }
@@ -637,6 +633,10 @@ impl Lab {
                 }
                 _ => "unknown".into(),
             };
+            // a call that reported an effect has appended to the log (a delete / update of an absent id has not)
+            if matches!(t, "insert" | "delete" | "umeta" | "bdelete") && res != "err" && res != "false" && res != "0" {
+                mut_since = true;
+            }
             self.out.emit(&json!({"ev": "op", "run": bi, "i": si + 1, "t": t, "res": res}));
         }
         drop(be.take()); // clean stop
